@@ -123,23 +123,35 @@ func (s *LinkedLog) Read(offset uint64) ([]OffsetAndSizeAndSlot, indexes.OffsetA
 	if n <= 0 {
 		return nil, indexes.OffsetAndSize{}, errors.New("invalid compacted indexes length")
 	}
-	return s.ReadWithSize(offset, compactedIndexesLen)
+	// ReadWithSize expects the size of the whole record (length prefix included).
+	return s.ReadWithSize(offset, uint64(n)+compactedIndexesLen)
 }
 
 func sizeOfUvarint(n uint64) int {
 	return binary.PutUvarint(make([]byte, binary.MaxVarintLen64), n)
 }
 
+// ReadWithSize reads the record of the given total size (length prefix included) stored at the given offset.
 func (s *LinkedLog) ReadWithSize(offset uint64, size uint64) ([]OffsetAndSizeAndSlot, indexes.OffsetAndSize, error) {
 	if size > 256*mib {
 		return nil, indexes.OffsetAndSize{}, fmt.Errorf("compacted indexes length too large: %d", size)
 	}
 	// debugln("compactedIndexesLen:", compactedIndexesLen)
-	// Read the compressed indexes
-	data := make([]byte, size-uint64(sizeOfUvarint(size))) // The size bytes have already been read.
-	_, err := s.file.ReadAt(data, int64(offset)+int64(sizeOfUvarint(size)))
+	// Read the whole record: the length prefix, the compressed indexes and the `next` offset.
+	record := make([]byte, size)
+	_, err := s.file.ReadAt(record, int64(offset))
 	if err != nil {
 		return nil, indexes.OffsetAndSize{}, err
+	}
+	// The width of the length prefix is whatever the writer used for the payload length;
+	// it cannot be derived from the total size (e.g. 1+127 = 128 needs a 1-byte prefix).
+	payloadLen, prefixLen := binary.Uvarint(record)
+	if prefixLen <= 0 || uint64(prefixLen)+payloadLen != size {
+		return nil, indexes.OffsetAndSize{}, fmt.Errorf("record at offset %d does not match the expected size %d", offset, size)
+	}
+	data := record[prefixLen:]
+	if len(data) < indexes.IndexValueSize_CidToOffsetAndSize {
+		return nil, indexes.OffsetAndSize{}, fmt.Errorf("record at offset %d is too short: %d bytes", offset, size)
 	}
 	// debugln_(func() []any { return []any{"data:", bin.FormatByteSlice(data)} })
 	// the indexesBytes are up until the last 8 bytes, which are the `next` offset.
